@@ -18,9 +18,11 @@ import (
 // (the edited program no longer compiles, or silently refers to a different output).
 //
 // Decided per walker over its mechanism (the function, its closures and the helpers it calls):
-//   (a) no two-index slice expression is applied to a value loaded from BindStms.List;
-//   (b) a loop indexing a value loaded from BindStms.List is left only through its header (the
-//       index reached the length): no edge from the loop body leaves the loop.
+//
+//	(a) no two-index slice expression is applied to a value loaded from BindStms.List;
+//	(b) a loop indexing a value loaded from BindStms.List is left only through its header (the
+//	    index reached the length): no edge from the loop body leaves the loop.
+//
 // removeOutputParam, which stops at the wildcard on purpose (what follows it in a compiled AST are
 // synthetic expansions), is not a rename walker and is not covered.
 func ruleG7(c *an.Ctx, sp *ssa.Package, mechOf func(*ssa.Function, int) map[*ssa.Function]bool) {
